@@ -37,7 +37,9 @@
 (*   tuple                   [ty |-> "tuple", v |-> sequence];  list: sequence   *)
 EXTENDS LayoutShapes, TLC
 
-CONSTANTS Cases            \* the set of cases to explore
+CONSTANTS Slices           \* what to explore: a sequence of [opt, cfgs, trees]; the cases are
+                           \* all [opt, cfg \in cfgs, tree \in trees] (cfgs may be a lazily
+                           \* enumerated record set [f1 : S1, f2 : S2, ...])
 
 VARIABLES case, phase, outcome, reason, layout
 vars == <<case, phase, outcome, reason, layout>>
@@ -62,8 +64,7 @@ Promote(a, b)      == IF a = "float64" \/ b = "float64" THEN "float64" ELSE "flo
 NParams(tree) == Len(tree.shapes)
 PerParam(tree, F(_)) == [i \in 1..NParams(tree) |-> F(tree.shapes[i])]
 
-RECURSIVE SeqSum(_)
-SeqSum(s) == IF Len(s) = 0 THEN 0 ELSE Head(s) + SeqSum(Tail(s))
+SeqSum(s) == FoldLeft(LAMBDA acc, x : acc + x, 0, s)
 
 -----------------------------------------------------------------------------
 (* Distributed Shampoo                                                        *)
@@ -282,6 +283,17 @@ DSUpdatesOK(c, tree) ==
        /\ \A k \in DOMAIN ts : SeqSum(SplitSizes(ts[k], c.bs)) = ts[k]
        /\ \A k \in DOMAIN ts : \A j \in DOMAIN SplitSizes(ts[k], c.bs) :
             SplitSizes(ts[k], c.bs)[j] >= 1
+
+(* Open finding "ds|shard|zero_stat_unskipped_param": a parameter that is not      *)
+(* skipped but announces no statistic (rank 0 with skip_preconditioning_rank_lt = 0)  *)
+(* makes sharded init_fn take max() of an empty list.                                 *)
+DSZeroStatUnskipped(c, tree) ==
+  \E i \in 1..NParams(tree) : ~DSSkip(c, tree.shapes[i]) /\ DSDims(c, tree.shapes[i]) = <<>>
+(* a parameter without statistics that carries metric arrays of length 0 (the         *)
+(* harness runs such cases on one device under pmap: jaxlib cannot compile pmap        *)
+(* programs over several CPU devices that compute on zero-size operands)               *)
+DSZeroLenMetrics(c, tree) ==
+  c.metrics /\ \E i \in 1..NParams(tree) : DSDims(c, tree.shapes[i]) = <<>>
 
 (* Open finding "ds|lobpcg|small_matrix": the Newton root is traced on the      *)
 (* matrices padded to the largest statistic; jax's lobpcg_standard insists on   *)
@@ -514,7 +526,8 @@ Accepted(k) == Rejects(k) = "none" /\ RejectsTree(k) = "none"
 -----------------------------------------------------------------------------
 NoLayout == [ty |-> "none"]
 
-Init == /\ case \in Cases
+Init == /\ \E i \in 1..Len(Slices) : \E c \in Slices[i].cfgs : \E t \in Slices[i].trees :
+             case = [opt |-> Slices[i].opt, cfg |-> c, tree |-> t]
         /\ phase = "new" /\ outcome = "pending" /\ reason = "none" /\ layout = NoLayout
 
 Construct ==
